@@ -137,15 +137,20 @@ def run(ctx):
                         if isinstance(cmpn, ast.Compare) and isinstance(cmpn.ops[0], (ast.In, ast.NotIn)) and _same_key(cmpn.left, key, d):
                             guards.append((gnode, cmpn))
             site = f"{f.relpath}::{f.qualname}: {A.short(store, 70)}"
+            cons = A.norm_locals(store, f.node)
+            if isinstance(key, ast.Name):
+                fdefs = [v for v in d.defs.get(key.id, []) if isinstance(v, ast.JoinedStr)]
+                if fdefs:
+                    cons = f"<dict>[{A.norm_locals(fdefs[0], f.node)}] = <spec element>"
             full = [gn for gn, cm in guards if g.dominates(gn, st, dom) and _unconditional(gn.test, cm)]
             if full:
                 ctx.holds(r2, site, "guarded by a membership test that raises")
             elif guards:
                 gn, cm = guards[0]
-                ctx.violated(r2, f, store, f"the registration under {A.short(key, 30)} is guarded against duplicates only under a side condition (`{A.short(gn.test, 70)}`): when it does not hold, a second entry with the same key silently replaces the first",
+                ctx.violated(r2, f, cons, f"the registration under {A.short(key, 30)} is guarded against duplicates only under a side condition (`{A.short(gn.test, 70)}`): when it does not hold, a second entry with the same key silently replaces the first",
                              expected=f"if {A.short(key, 30)} in <table>: raise", found="partial guard", node=store)
             else:
-                ctx.violated(r2, f, store, f"`{table}` is keyed by a name taken from the specification without a duplicate check: two elements with the same name are silently merged / the last one wins",
+                ctx.violated(r2, f, cons, f"`{table}` is keyed by a name taken from the specification without a duplicate check: two elements with the same name are silently merged / the last one wins",
                              expected=f"membership test on {A.short(key, 30)} that raises a pyhf exception", found="no guard", node=store)
 
     # ------------------------------------------------------------ R3
@@ -164,7 +169,7 @@ def run(ctx):
         first_wins = [(m, cc) for m, cc in regs if m.name == "append"]
         if shared and data_dep and first_wins:
             m, cc = first_wins[0]
-            ctx.violated(r3, m, cc, f"{b.name} is shared by name and its parameter requirement depends on the sample's data ({sorted(dd.roots_of(rets[0].value) & params)}), but it is registered with setdefault: the first (channel, sample) visited fixes the size, every other place with a different bin count is bound to it silently",
+            ctx.violated(r3, m, A.norm_locals(cc, m.node), f"{b.name} is shared by name and its parameter requirement depends on the sample's data ({sorted(dd.roots_of(rets[0].value) & params)}), but it is registered with setdefault: the first (channel, sample) visited fixes the size, every other place with a different bin count is bound to it silently",
                          expected="accumulate all requirements and let reduce_paramsets_requirements refuse conflicting sizes", found=A.short(cc, 70), node=cc)
         else:
             why = "not shared" if not shared else ("requirement independent of per-site data" if not data_dep else "not registered per site")
@@ -191,7 +196,7 @@ def run(ctx):
         else:
             ctx.violated(r4, fin or b, "bin-count check", f"{b.name} consumes per-bin modifier data but does not compare its length with the sample's bin count (its sibling builders do): a wrong-length modifier is accepted or fails with a foreign exception", expected="if len(nom_data) != len(<modifier data>): raise InvalidModifier", node=(fin or b).node)
     nb = repo.method(PDF, "_nominal_builder", "append")
-    okn = any(isinstance(n, ast.If) and "len(nom)" in A.unparse(n.test) and "channel_nbins" in A.unparse(n.test) and any(_exc(r) == "InvalidModel" for r in ast.walk(n) if isinstance(r, ast.Raise)) for n in ast.walk(nb.node))
+    okn = any(isinstance(n, ast.If) and "len(" in A.unparse(n.test) and "channel_nbins" in A.unparse(n.test) and any(_exc(r) == "InvalidModel" for r in ast.walk(n) if isinstance(r, ast.Raise)) for n in ast.walk(nb.node))
     if okn:
         ctx.holds(r4, f"{PDF}::_nominal_builder.append", "sample length vs channel_nbins -> InvalidModel")
     else:
